@@ -12,7 +12,8 @@ Open Scope N_scope.
 Inductive g1op :=
   | HPush (bs : list N) | HPushCopy (bs : list N) | HPushBorrowed (bs : list N) | HExtend (items : list (list N))
   | HAnchored (bs : list N) | HRegister (p : list N) | HBackfill (b : option gbackref) (src : list N)
-  | HConsume (k : N) | HAdvance (n : N) | HPop | HRead (n : N) | HClear | HFlush | HEnsure (n : N).
+  | HConsume (k : N) | HAdvance (n : N) | HPop | HRead (n : N) | HClear | HFlush | HEnsure (n : N)
+  | HAnchoredN (bs : list N) (count : N).   (* anchored input from a reader that delivers only bs of the count bytes asked for *)
 Inductive gout := GUnit | GHandle (b : option gbackref) | GCount (n : N) | GBytes (bs : list N).
 
 Definition g1step (h : heap) (g : giov) (o : g1op) : option (heap * giov * gout) :=
@@ -34,6 +35,9 @@ Definition g1step (h : heap) (g : giov) (o : g1op) : option (heap * giov * gout)
                  | Some (h', k') => Some (h', set_cache (Some k') g, GUnit)
                  | None => None
                  end
+  | HAnchoredN bs count => if nlen bs <=? count
+                           then match anchored_n h bs count g with Some (h', g') => Some (h', g', GUnit) | None => None end
+                           else None
   end.
 
 Fixpoint g1run (h : heap) (g : giov) (ops : list g1op) : option (heap * giov * list gout) :=
@@ -51,7 +55,7 @@ Fixpoint g1run (h : heap) (g : giov) (ops : list g1op) : option (heap * giov * l
 (* what one Geo operation and its output mean on the pipe side *)
 Definition matches (o : g1op) (x : gout) (s s' : Pipe.st) : Prop :=
   match o with
-  | HPush bs | HPushCopy bs | HPushBorrowed bs | HAnchored bs => exists merged, s' = Pipe.push merged bs s
+  | HPush bs | HPushCopy bs | HPushBorrowed bs | HAnchored bs | HAnchoredN bs _ => exists merged, s' = Pipe.push merged bs s
   | HExtend items => exists ms, length ms = length items /\ s' = pipe_pushes ms items s
   | HRegister p => exists merged b, x = GHandle b /\ s' = fst (Pipe.register merged p s) /\
                                     option_map (fun b => N.to_nat (bend b)) b = snd (Pipe.register merged p s)
@@ -85,7 +89,7 @@ Qed.
 
 Lemma matches_inv o x s s' : PipeProofs.Inv s -> matches o x s s' -> PipeProofs.Inv s'.
 Proof.
-  intros I M. destruct o as [bs|bs|bs|items|bs|p|b src|k|k| |k| | |k]; cbn [matches] in M.
+  intros I M. destruct o as [bs|bs|bs|items|bs|p|b src|k|k| |k| | |k|bs count]; cbn [matches] in M.
   - destruct M as (m & ->). now apply PipeProofs2.push_inv.
   - destruct M as (m & ->). now apply PipeProofs2.push_inv.
   - destruct M as (m & ->). now apply PipeProofs2.push_inv.
@@ -102,6 +106,7 @@ Proof.
   - subst s'. apply PipeProofs4.Inv_empty.
   - now subst.
   - now subst.
+  - destruct M as (m & ->). now apply PipeProofs2.push_inv.
 Qed.
 
 (* one step *)
@@ -109,7 +114,7 @@ Theorem g1step_refines h g s o h' g' x :
   GInv h g -> R h g s -> g1step h g o = Some (h', g', x) ->
   GInv h' g' /\ exists s', matches o x s s' /\ R h' g' s'.
 Proof.
-  intros I Rs E. destruct o as [bs|bs|bs|items|bs|p|b src|k|k| |k| | |k]; cbn [g1step] in E.
+  intros I Rs E. destruct o as [bs|bs|bs|items|bs|p|b src|k|k| |k| | |k|bs count]; cbn [g1step] in E.
   - destruct (push h (SExt bs) g) as [[h1 g1]|] eqn:EP; [|discriminate]. inversion E; subst h1 g1 x.
     destruct (push_refines _ _ _ _ _ _ I Rs EP) as (I' & m & R'). split; [exact I'|]. eexists. split; [exists m; reflexivity|exact R'].
   - destruct (push_copy h bs g) as [[h1 g1]|] eqn:EP; [|discriminate]. inversion E; subst h1 g1 x.
@@ -145,6 +150,9 @@ Proof.
   - inversion E; subst h' g' x. destruct (set_cache_refines h g s None I Rs Logic.I) as (I' & R'). split; [exact I'|]. exists s. split; [reflexivity|exact R'].
   - destruct (ensure_capacity h (gcache_ g) k) as [[h1 k1]|] eqn:EP; [|discriminate]. inversion E; subst h1 g' x.
     destruct (ensure_refines _ _ _ _ _ _ I Rs EP) as (I' & R'). split; [exact I'|]. exists s. split; [reflexivity|exact R'].
+  - destruct (nlen bs <=? count) eqn:Ec; [|discriminate]. apply N.leb_le in Ec.
+    destruct (anchored_n h bs count g) as [[h1 g1]|] eqn:EP; [|discriminate]. inversion E; subst h1 g1 x.
+    destruct (anchored_n_refines _ _ _ _ _ _ _ I Rs Ec EP) as (I' & m & R'). split; [exact I'|]. eexists. split; [exists m; reflexivity|exact R'].
 Qed.
 
 (* every history *)
